@@ -48,6 +48,10 @@ type varInfo struct {
 	// annotated test program reads one early, so the generator does not
 	// either.
 	WO bool
+	// NoAssign marks a local array while a range loop runs over it: it is
+	// not assigned in the loop body, but - unlike a parameter - its
+	// elements are not input-dependent for that reason.
+	NoAssign bool
 }
 
 type scope map[string]*varInfo
@@ -584,7 +588,7 @@ func (g *gctx) assignable(pred func(Type) bool) []named {
 	vis := g.visible()
 	g.wantWO = false
 	for _, nv := range vis {
-		if !nv.v.RO && pred(nv.v.T) {
+		if !nv.v.RO && !nv.v.NoAssign && pred(nv.v.T) {
 			res = append(res, nv)
 		}
 	}
@@ -823,7 +827,7 @@ func (g *gctx) declAggregate(name string, T Type) *Stmt {
 func (g *gctx) structIdiom() *Stmt {
 	var cands []named
 	for _, nv := range g.visible() {
-		if nv.v.T.K == KStruct && !nv.v.RO {
+		if nv.v.T.K == KStruct && !nv.v.RO && !nv.v.NoAssign {
 			cands = append(cands, nv)
 		}
 	}
@@ -1000,8 +1004,9 @@ func (g *gctx) forStmt() *Stmt {
 			// loop (whether the loop sees such updates is not fixed
 			// by the docs or the annotated programs).
 			wasRO := nv.v.RO
-			nv.v.RO = true
-			defer func() { nv.v.RO = wasRO }()
+			wasNA := nv.v.NoAssign
+			nv.v.NoAssign = true
+			defer func() { nv.v.NoAssign = wasNA }()
 			g.push()
 			g.top()[s.Name] = &varInfo{T: *nv.v.T.E, Dyn: wasRO, RO: true}
 			n := g.intn(1, 3, "loopbody")
